@@ -29,7 +29,7 @@ ASSUMPTIONS = [
 # ---------------------------------------------------------------- traffic
 
 
-def gen_traffic(draw_int, draw_choice, direction):
+def gen_traffic(draw_int, draw_choice, direction, many=False):
     """Drive a sending H3Connection; returns dict(streams=..., submitted=..., dgrams=[...], frame_marks={sid:set(offsets)})."""
     from aioquic.h3.connection import H3Connection
     from aioquic.quic.events import StreamDataReceived
@@ -64,6 +64,12 @@ def gen_traffic(draw_int, draw_choice, direction):
     submitted = {}
     marks = {}
     nmsg = draw_int(1, 4)
+    # many: 17-24 messages in one go while nothing comes back from the peer (no QPACK acknowledgements: with acknowledgements from another
+    # receiver instance the replayed interleavings would not be histories of one receiver).  More streams then want dynamic-table entries than the
+    # receiver allows to block (SETTINGS_QPACK_BLOCKED_STREAMS = 16); a correct encoder does not reference unacknowledged entries on more than that.
+    quiet_peer = many
+    if many:
+        nmsg = 16 + 2 * nmsg
     for i in range(nmsg):
         if sender_is_client:
             sid = qs.get_next_available_stream_id()
@@ -74,7 +80,7 @@ def gen_traffic(draw_int, draw_choice, direction):
         for _ in range(draw_int(0, 5)):
             hdrs.append((draw_choice(names), draw_choice(values)))
         items = []
-        nbody = draw_choice([0, 0, 1, 5, 63, 64, 100, 3000, 20000])
+        nbody = draw_choice([0, 0, 1, 5, 63, 64, 100, 3000, 20000]) if nmsg <= 8 else draw_choice([0, 0, 1, 5])
         parts = draw_int(1, 4) if nbody else draw_int(0, 2)
         trailers = draw_int(0, 9) < 3
         if nbody and parts and draw_int(0, 1):
@@ -112,7 +118,7 @@ def gen_traffic(draw_int, draw_choice, direction):
             hs.send_headers(sid, tr, end_stream=True)
             items.append(("H", tuple(tr), None))
         submitted[sid] = (tuple(items), True)
-        if draw_int(0, 1):
+        if draw_int(0, 1) and not quiet_peer:
             feedback()
     if draw_int(0, 9) < 3:
         uni = bool(draw_int(0, 1))
@@ -266,12 +272,13 @@ def random_plans(ctx, examples, shard, plans_per_traffic):
             draws.append(i)
             return xs[i]
 
-        traffic = gen_traffic(di, dc, direction)
+        many = data.draw(st.integers(0, 11)) == 0
+        traffic = gen_traffic(di, dc, direction, many=many)
         streams = traffic["streams"]
-        thash = h64((direction, tuple(draws)))
+        thash = h64((direction, many, tuple(draws)))
         refp = ref_plan(streams, traffic["dgrams"])
         finished_requests = direction == "s2c" and len(draws) % 2 == 0
-        case0 = {"kind": "plan", "direction": direction, "draws": draws, "plan": plan_desc(refp), "finished_requests": finished_requests}
+        case0 = {"kind": "plan", "direction": direction, "draws": draws, "many": many, "plan": plan_desc(refp), "finished_requests": finished_requests}
         try:
             evs, q, _ = B.deliver(refp, not traffic["sender_is_client"], **receiver_for(traffic, finished_requests))
         except Exception as e:
@@ -409,7 +416,7 @@ def replay(ctx, case):
         return
     draws = list(case["draws"])
     it = iter(draws)
-    traffic = gen_traffic(lambda a, b: next(it), lambda xs: xs[next(it)], case["direction"])
+    traffic = gen_traffic(lambda a, b: next(it), lambda xs: xs[next(it)], case["direction"], many=bool(case.get("many")))
     refp = ref_plan(traffic["streams"], traffic["dgrams"])
     evs, q, _ = B.deliver(refp, not traffic["sender_is_client"], **receiver_for(traffic, case.get("finished_requests", False)))
     ref_norm = B.normalise(evs)
